@@ -671,7 +671,105 @@ func opNNI(h *hist) *Event {
 	return h.finish(ev)
 }
 
+// in-place edits of comments (C15: a copy must not share its comment storage with its source)
+func opCommentClearAdd(h *hist) *Event {
+	ids := h.p.innerIds()
+	ids = append(ids, h.p.tipIds()...)
+	id := ids[h.r.Intn(len(ids))]
+	h.fresh++
+	c := fmt.Sprintf("z%d", h.fresh)
+	ev := &Event{Op: "CommentClearAdd", Args: map[string]interface{}{"node": id, "comment": c}}
+	guard(ev, func() error {
+		n := h.p.node(id)
+		n.ClearComments()
+		n.AddComment(c)
+		if h.r.Intn(2) == 0 {
+			n.AddComment(c + "b")
+		}
+		return nil
+	})
+	return h.finish(ev)
+}
+
+func opCommentAppend(h *hist) *Event {
+	ids := h.p.innerIds()
+	ids = append(ids, h.p.tipIds()...)
+	id := ids[h.r.Intn(len(ids))]
+	h.fresh++
+	c := fmt.Sprintf("y%d", h.fresh)
+	ev := &Event{Op: "CommentAppend", Args: map[string]interface{}{"node": id, "comment": c}}
+	guard(ev, func() error {
+		h.p.node(id).AddComment(c)
+		// and on the branch above it, if any
+		for i, e := range h.p.node(id).Edges() {
+			if e.Right() == h.p.node(id) && i >= 0 {
+				e.AddComment(c + "e")
+			}
+		}
+		return nil
+	})
+	return h.finish(ev)
+}
+
+// the same in-place edits on the observed twin (object b): the history's own object must not change
+func opTwinCommentEdit(h *hist) *Event {
+	if h.b == nil {
+		return nil
+	}
+	h.fresh++
+	c := fmt.Sprintf("w%d", h.fresh)
+	ev := &Event{Op: "TwinCommentEdit", Args: map[string]interface{}{"comment": c}}
+	guard(ev, func() error {
+		nodes := h.b.Nodes()
+		n := nodes[h.r.Intn(len(nodes))]
+		if h.r.Intn(2) == 0 {
+			n.ClearComments()
+		}
+		n.AddComment(c)
+		for _, e := range h.b.Edges() {
+			if h.r.Intn(4) == 0 {
+				e.AddComment(c)
+			}
+		}
+		return nil
+	})
+	// the twin changed on purpose: its reference projection is refreshed, object a is judged as usual
+	ev = h.finish(ev)
+	h.pb = project(h.b, h.opt)
+	ev.Obj2 = "b"
+	ev.Post2 = h.pb
+	return ev
+}
+
+// NNIAll: the whole neighbourhood, each rearrangement applied, projected and undone (enumeration order)
+func opNNIAll(h *hist) *Event {
+	if !h.binary() || len(h.p.tipNames()) > 12 {
+		return nil
+	}
+	ev := &Event{Op: "NNIAll"}
+	nb := []*PTree{}
+	guard(ev, func() error {
+		var err error
+		(&tree.NNIRearranger{}).Rearrange(h.t, func(r tree.Rearrangement) bool {
+			if err = r.Apply(); err != nil {
+				return false
+			}
+			nb = append(nb, project(h.t, ProjOpt{}))
+			if err = r.Undo(); err != nil {
+				return false
+			}
+			return true
+		})
+		return err
+	})
+	ev = h.finish(ev)
+	ev.Res = map[string]interface{}{"nb": nb}
+	return ev
+}
+
 var editOps = map[string]opFn{
+	"NNIAll": opNNIAll,
+	"CommentClearAdd": opCommentClearAdd, "CommentAppend": opCommentAppend, "TwinCommentEdit": opTwinCommentEdit,
 	"Reroot": opReroot, "RerootFirst": opRerootFirst, "UnRoot": opUnRoot, "RerootOutGroup": opRerootOutGroup,
 	"RerootMidPoint": opRerootMidPoint, "RemoveTips": opRemoveTips, "CollapseShortBranches": opCollapseLen,
 	"CollapseLowSupport": opCollapseSup, "CollapseTopoDepth": opCollapseDepth, "Resolve": opResolve,
@@ -693,9 +791,9 @@ var editProfiles = map[string]map[string]int{
 		"RotateNeighbors": 1, "SortNeighborsByTips": 2, "RemoveTips": 1, "CollapseShortBranches": 1, "Resolve": 1},
 	"C06": {"RemoveTips": 10, "Reroot": 1, "UnRoot": 1, "RerootOutGroup": 1, "CollapseShortBranches": 1, "RemoveSingleNodes": 1, "Resolve": 1, "RotateInternalNodes": 1},
 	"C07": {"CollapseShortBranches": 6, "CollapseLowSupport": 6, "CollapseTopoDepth": 6, "Resolve": 6, "Reroot": 2, "UnRoot": 1, "RemoveTips": 1, "RotateInternalNodes": 1},
-	"C15": {"Clone": 6, "SubTree": 3, "GraftTreeOnTip": 5, "Merge": 5, "InsertIdenticalTips": 5, "RemoveSingleNodes": 4, "Reroot": 3,
+	"C15": {"CommentClearAdd": 4, "CommentAppend": 4, "TwinCommentEdit": 3, "Clone": 6, "SubTree": 3, "GraftTreeOnTip": 5, "Merge": 5, "InsertIdenticalTips": 5, "RemoveSingleNodes": 4, "Reroot": 3,
 		"RemoveTips": 2, "CollapseShortBranches": 1, "Resolve": 1, "ShuffleTips": 1, "Rename": 1, "ReinitIndexes": 1, "ClearLengths": 1, "RotateInternalNodes": 1, "NNI": 1, "UnRoot": 1},
-	"C17": {"NNI": 12, "Reroot": 3, "UnRoot": 1, "RerootOutGroup": 2, "RotateInternalNodes": 1},
+	"C17": {"NNIAll": 6, "NNI": 12, "RotateNeighbors": 2, "Reroot": 3, "UnRoot": 1, "RerootOutGroup": 2, "RotateInternalNodes": 1},
 	"C04": {"Reroot": 4, "UnRoot": 2, "RerootOutGroup": 3, "RemoveTips": 4, "CollapseShortBranches": 2, "Resolve": 2, "RotateInternalNodes": 2,
 		"SortNeighborsByTips": 1, "GraftTipOnEdge": 2, "InsertIdenticalTips": 2, "Clone": 2, "NNI": 2, "ReinitIndexes": 6, "ShuffleTips": 1, "Rename": 1, "Merge": 1, "GraftTreeOnTip": 1, "RemoveSingleNodes": 1},
 }
